@@ -4,4 +4,4 @@ Require Import Ojg.Jp.Expr Ojg.Jp.Show.
 Require Import Ojg.Alt.Diff Ojg.Alt.Show.
 Extraction Language OCaml.
 Extraction "model.ml" model_parse model_parse_chunks spec_accepts spec_parse
-  model_get model_match model_locate model_locate_ses model_first model_has model_mutate model_mutate_one model_jpstr model_write model_diff.
+  model_get model_match model_locate model_locate_ses model_first model_has model_mutate model_mutate_one model_jpstr model_write model_diff model_matchdoc.
